@@ -169,9 +169,11 @@ func c14W5(r *core.R) {
 		// guard whitelist: between the start of a version's iteration and the recursive call, the only conditions that decide
 		// whether the call is reached are the member-type test and the cycle cut
 		c = "member-guards@dfs"
-		allowed := c14Edges{} // edges that may lead away from the call: the member is not a relation, or it is an ancestor
+		allowed := c14Edges{}           // edges that may lead away from the call: the member is not a relation, or it is an ancestor
+		skipOnly := map[*c14Node]bool{} // … of which these may only skip the member, not end the walk
 		for n, v := range isRel {
 			allowed[n] = -v
+			skipOnly[n] = true
 		}
 		for _, n := range m.atoms(g) {
 			// `member.Type == K` for a constant K other than osm.TypeRelation implies "not a relation"
@@ -194,6 +196,7 @@ func c14W5(r *core.R) {
 				} else {
 					allowed[n] = -1
 				}
+				skipOnly[n] = true
 			}
 		}
 		if rec.idVal != nil {
@@ -207,6 +210,7 @@ func c14W5(r *core.R) {
 			for _, t := range wf.tests {
 				if g.sameValue(t.key, t.n, rec.idVal, rec.n) {
 					allowed[t.n] = 1
+					skipOnly[t.n] = true
 				}
 			}
 		}
@@ -224,10 +228,15 @@ func c14W5(r *core.R) {
 			}
 			cont, esc := false, false
 			for _, e := range s.out {
+				to := g.reach([]*c14State{e.to}, stop, nil)
 				switch {
-				case g.reach([]*c14State{e.to}, stop, nil).hasNode(rec.n):
+				case to.hasNode(rec.n):
 					cont = true
 				case !allowed.skip(s, e):
+					esc = true
+				case skipOnly[s.n] && len(to.exits()) > 0:
+					// "not a relation" / "already emitted" may skip the member (go on with the next one); they are no reason to
+					// leave the walk of the current id
 					esc = true
 				}
 			}
@@ -391,10 +400,25 @@ func c14W6(r *core.R) {
 		pos := gr.states[0].n.pos()
 		switch {
 		case label == "unexplained":
+			// a nil result tells the caller "this id is done": the parent goes on and is emitted although this relation was
+			// neither emitted nor cut as an ancestor nor failed — a violation; any other result is left undecided
 			seen := map[*c14Node]bool{}
 			for _, s := range gr.states {
-				if !seen[s.n] {
-					seen[s.n] = true
+				if seen[s.n] {
+					continue
+				}
+				seen[s.n] = true
+				nilResult := false
+				for _, s2 := range gr.states {
+					if s2.n == s.n {
+						if abs, _, _ := m.exitVal(g, s2); abs == c14Nil {
+							nilResult = true
+						}
+					}
+				}
+				if nilResult {
+					r.Bad(c, s.n.pos(), "`%s` leaves %s with a nil result before the emission although the id was not found in the visited set, its history was found, no error occurred, no member is an ancestor and the context is not cancelled: the relation is abandoned un-emitted (and un-visited) while its caller takes it for done, so its ancestors are emitted before it — child-first order is broken (e.g. a depth or size cut-off on a deep acyclic chain)", m.nodeSrc(s.n), fn)
+				} else {
 					r.Unknown(c, s.n.pos(), "`%s` leaves %s before the emission for a reason that is not one of: already visited, history not found, datasource/child error, cycle cut, cancellation. Such an exit keeps a relation with a history from being emitted, or lets a parent be emitted while this child was skipped", m.nodeSrc(s.n), fn)
 				}
 			}
